@@ -559,6 +559,24 @@ Fixpoint bytes_loop (xs : list string) (i : bool) : string :=
 Definition enc_series_bytes (xs : list string) : string :=
   ("{""status"":""success"", ""data"":[" ++ bytes_loop xs false ++ "]}")%string.
 
+(* TempoController.Trace (JSON branch) and Search splice what json.Marshal produced for every span /
+   trace between hand-written chunks; the Trace header is a raw string literal with line breaks *)
+Definition nl3 : string := String (chr 10) (String (chr 9) (String (chr 9) (String (chr 9) EmptyString))).
+Definition trace_hdr : string :=
+  ("{""resourceSpans"": [{ " ++ nl3 ++
+   """resource"":{""attributes"":[{""key"":""collector"",""value"":{""stringValue"":""qryn""}}]}, " ++ nl3 ++
+   """instrumentationLibrarySpans"": [{ ""spans"": [")%string.
+Definition enc_trace_bytes (xs : list string) : string :=
+  (trace_hdr ++ bytes_loop xs false ++ "]}]}]}")%string.
+Definition enc_search_bytes (xs : list string) : string :=
+  ("{""traces"": [" ++ bytes_loop xs false ++ "]}")%string.
+Definition doc_series_of (ds : list json) : json := JObj [("status", JStr "success"); ("data", JArr ds)].
+Definition doc_trace_of (ds : list json) : json :=
+  JObj [("resourceSpans", JArr [JObj [
+    ("resource", JObj [("attributes", JArr [JObj [("key", JStr "collector"); ("value", JObj [("stringValue", JStr "qryn")])]])]);
+    ("instrumentationLibrarySpans", JArr [JObj [("spans", JArr ds)]])]])].
+Definition doc_search_of (ds : list json) : json := JObj [("traces", JArr ds)].
+
 Definition doc_tempo_list (key : string) (xs : list string) : json :=
   JObj [(key, JArr (map (fun x => JStr (sanitize x)) xs))].
 Definition doc_labels (xs : list string) : json :=
@@ -790,7 +808,7 @@ Definition dec_Z (s : string) : Z :=
 Definition dec_nat (s : string) : nat := N.to_nat (dec_N s 0).
 
 Inductive enc_kind := KStreams | KMatrix | KTail | KVector | KTags | KTagValues | KLabels | KSeries
-                  | KPromMatrix | KPromVector | KPromScalar | KPromError.
+                  | KPromMatrix | KPromVector | KPromScalar | KPromError | KTrace | KSearch.
 Record case := {
   c_id : Z;
   c_kind : enc_kind;
@@ -827,6 +845,8 @@ Definition model_bytes (c : case) : string :=
   | KPromVector => render (enc_prom_vector (case_series c))
   | KPromScalar => render (enc_prom_scalar (case_scalar c))
   | KPromError => render (enc_prom_error (case_msg c))
+  | KTrace => enc_trace_bytes (c_items c)
+  | KSearch => enc_search_bytes (c_items c)
   end.
 Fixpoint all_some {A} (l : list (option A)) : option (list A) :=
   match l with
@@ -846,10 +866,9 @@ Definition spec_doc (c : case) : option json :=
   | KTags => Some (doc_tempo_list "tagNames" (c_items c))
   | KTagValues => Some (doc_tempo_list "tagValues" (c_items c))
   | KLabels => Some (doc_labels (c_items c))
-  | KSeries => match all_some (map parse_bytes (c_items c)) with
-               | Some ds => Some (JObj [("status", JStr "success"); ("data", JArr ds)])
-               | None => None
-               end
+  | KSeries => option_map doc_series_of (all_some (map parse_bytes (c_items c)))
+  | KTrace => option_map doc_trace_of (all_some (map parse_bytes (c_items c)))
+  | KSearch => option_map doc_search_of (all_some (map parse_bytes (c_items c)))
   | KPromMatrix => Some (doc_prom_matrix (case_series c))
   | KPromVector => Some (doc_prom_vector (case_series c))
   | KPromScalar => Some (doc_prom_scalar (case_scalar c))
@@ -954,7 +973,10 @@ Definition dec_kind (s : string) : option enc_kind :=
   else if String.eqb s "prommatrix" then Some KPromMatrix
   else if String.eqb s "promvector" then Some KPromVector
   else if String.eqb s "promscalar" then Some KPromScalar
-  else if String.eqb s "promerror" then Some KPromError else None.
+  else if String.eqb s "promerror" then Some KPromError
+  else if String.eqb s "trace" then Some KTrace
+  else if String.eqb s "search" then Some KSearch
+  else if String.eqb s "searchql" then Some KSearch else None.
 Definition decode_case (x : lbytes) : option case :=
   match split_bar (string_of_list_byte (unLB x)) (fun y => y) with
   | id :: kind :: nls :: r =>
